@@ -1,0 +1,51 @@
+//go:build verif
+
+// Machine-checked contracts for package realip (comment-only; see /verif/DESIGN.md).
+
+package realip
+
+//@ func hopTrusted
+//@   property C04
+//@   pure
+//@   ensures @empty_list_trusts_only_unix_socket len(trustedNets) == 0 && addr != "@" ==> !ret0
+//@
+//@ func requestTrusted
+//@   property C04
+//@   modifies nothing
+//@
+//@ func trustedClient
+//@   property C04
+//@   ghost directIP string = ""
+//@   ghost firstSeen bool = false
+//@   ghost firstTrusted bool = false
+//@   ghost readForwarded bool = false
+//@   on call zhttp.StripPort(a) ret (ip): directIP = ite(firstSeen, directIP, ip)
+//@   on call hopTrusted(nets, a) ret (r): firstTrusted = ite(firstSeen, firstTrusted, r && a == directIP && sameslice(nets, trustedNets)); firstSeen = true
+//@   on call (net/http.Header).Values(_, _) ret (v): readForwarded = true
+//@   before call (net/http.Header).Values(_, _): assert @forwarded_header_read_only_for_trusted_peer firstSeen && firstTrusted
+//@   loop 2 sig "for i := len(hops) - 1; i >= 0; i--" invariant firstSeen && firstTrusted && readForwarded
+//@   ensures @untrusted_peer_keeps_its_own_address !firstTrusted ==> ret0 == directIP && !ret1 && !readForwarded
+//@   ensures @proxied_only_via_trusted_peer ret1 ==> firstTrusted
+//@   ensures @direct_peer_was_checked firstSeen
+//@
+//@ func PeerCertificates
+//@   property C04
+//@   ghost trusted bool = false
+//@   ghost asked bool = false
+//@   on call requestTrusted(r) ret (t): trusted = t && r == req; asked = true
+//@   before call (net/http.Header).Get(_, _): assert @client_cert_header_read_only_for_trusted_proxy asked && trusted
+//@   ensures @untrusted_peer_identity_is_its_tls_chain asked && !trusted ==> ret1 == nil && \
+//@        (req.TLS != nil ==> sameslice(ret0, req.TLS.PeerCertificates)) && (req.TLS == nil ==> ret0 == nil)
+//@   ensures @trust_was_checked asked
+//@
+//@ func parseTrusted
+//@   property C04
+//@   ghost isCIDR bool = false
+//@   ghost parsedNet *net.IPNet = nil
+//@   ghost hostMask net.IPMask = nil
+//@   ghost hostMaskFull bool = false
+//@   on call strings.ContainsRune(_, _) ret (r): isCIDR = r
+//@   on call net.ParseCIDR(_) ret (ip, n, e): parsedNet = n
+//@   on call net.CIDRMask(ones, bits) ret (m): hostMask = m; hostMaskFull = (ones == bits)
+//@   before call builtin append(_, e): assert @bare_address_trusts_that_host_only \
+//@        (isCIDR ==> e[0] == parsedNet) && (!isCIDR ==> hostMaskFull && sameslice(e[0].Mask, hostMask))
